@@ -231,6 +231,66 @@ class Scene:
             raise RealCodeRaised(type(ex).__name__, str(ex), traceback.format_exc()[-1200:]) from None
 
 
+GPF_POP = 10
+GPF_SEED = 20240917
+
+
+class ParticleScene(Scene):
+    """The same geometry for the second filter family: a REAL GeneticParticleFilter whose population is
+    fixed by a seed.  update() is run with the instance's resample() replaced by a no-op (the genetic
+    step draws random numbers and sorts nearly tied scores; everything before it is deterministic):
+    calculateResidualsFromObservations, forecast (scores), innovation, nis, est_x, est_p."""
+
+    def __init__(self):
+        super().__init__("a1")
+        from resonaate.dynamics.two_body import TwoBody
+        from resonaate.estimation.particle.genetic_particle_filter import GeneticParticleFilter
+        state = np.random.get_state()
+        np.random.seed(GPF_SEED)
+        try:
+            self.gpf = GeneticParticleFilter(10001, DT_PRED, self.centre.copy(), np.array(self.filter.pred_p, dtype=float),
+                                             TwoBody(), None, population_size=GPF_POP, num_purge=1, num_keep=1, num_mutate=4)
+        finally:
+            np.random.set_state(state)
+        self._single: dict = {}
+
+    def gpf_update(self, stack: list) -> dict:
+        obs = [self.observation(o) for o in stack]
+        f = copy.deepcopy(self.gpf)
+        f.resample = lambda: None
+        try:
+            f.update(obs)
+            comps = [(o["id"], c, comp) for o in stack for c, comp in enumerate(KIND_COMPS[o["kind"]])]
+            res = {"residuals": np.array(f.particle_residuals, dtype=float), "is_angular": np.array(f.is_angular, dtype=bool),
+                   "scores": np.array(f.scores, dtype=float), "innovation": np.array(f.innovation, dtype=float),
+                   "est_x": np.array(f.est_x, dtype=float), "est_p": np.array(f.est_p, dtype=float), "comps": comps,
+                   "ids": [o["id"] for o in stack]}
+            m = len(comps)
+            if res["residuals"].shape != (m, GPF_POP) or res["is_angular"].shape != (m,) or res["scores"].shape != (GPF_POP,) \
+                    or res["innovation"].shape != (m,) or res["est_x"].shape != (6,) or res["est_p"].shape != (6, 6):
+                raise ValueError(f"update() left outputs of unexpected shape: residuals {res['residuals'].shape}, is_angular "
+                                 f"{res['is_angular'].shape}, scores {res['scores'].shape}, innovation {res['innovation'].shape}")
+            return res
+        except Exception as ex:  # noqa: BLE001
+            import traceback
+            raise RealCodeRaised(type(ex).__name__, str(ex), traceback.format_exc()[-1200:]) from None
+
+    def gpf_single(self, o: dict) -> np.ndarray:
+        """Residual block of ONE observation alone (same population), cached."""
+        import json as _json
+        k = _json.dumps(o, sort_keys=True)
+        if k not in self._single:
+            f = copy.deepcopy(self.gpf)
+            ob = self.observation(o)
+            try:
+                _, r = f.calculateResidualsFromObservations([ob])
+                self._single[k] = np.array(r, dtype=float)
+            except Exception as ex:  # noqa: BLE001
+                import traceback
+                raise RealCodeRaised(type(ex).__name__, str(ex), traceback.format_exc()[-1200:]) from None
+        return self._single[k]
+
+
 class RealCodeRaised(Exception):
     def __init__(self, cls: str, msg: str, tb: str):
         super().__init__(f"{cls}: {msg}")
